@@ -25,6 +25,7 @@ case "$act" in
   real) exec env PYTHONPATH=%(repo)s %(py)s -m bandit "$@" 2>/dev/null ;;
   kill) kill -9 $$ ;;
   term) kill -15 $$ ;;
+  hup) kill -1 $$ ;;
   *) exit "$act" ;;
 esac
 """
@@ -101,6 +102,15 @@ def run_baseline(repo, argv, plan, reset_plan, tmpdir, shimdir):
         return real_co(cmd, *a, **k)
 
     old_tmp = tempfile.tempdir
+    # the tool must never take this process down with it: a signal it sends to itself is turned into an exception
+    import signal
+
+    class ToolKilledItself(BaseException):
+        pass
+
+    def on_signal(signum, frame):
+        raise ToolKilledItself("the tool sent itself signal %d" % signum)
+    old_handlers = {sg: signal.signal(sg, on_signal) for sg in (signal.SIGTERM, signal.SIGHUP)}
     try:
         os.environ["PATH"] = shimdir + os.pathsep + old_env.get("PATH", "")
         os.environ["SHIM_PLAN"] = ",".join(a if a not in ("missing", "interrupt") else "0" for a in plan)
@@ -115,12 +125,28 @@ def run_baseline(repo, argv, plan, reset_plan, tmpdir, shimdir):
         bb.current_commit = None
         r = climain.run_main(argv, cwd=repo, entry="bandit.cli.baseline")
     finally:
+        for sg, h in old_handlers.items():
+            signal.signal(sg, h)
         subprocess.check_output = real_co
         gitmod.refs.head.HEAD.reset = real_reset
         tempfile.tempdir = old_tmp
         os.environ.clear()
         os.environ.update(old_env)
     return r
+
+
+def run_baseline_subprocess(repo, argv, plan, tmpdir, shimdir):
+    """The tool as its own process (so that whatever it does to itself - exit, signal - is observed from outside)."""
+    state = os.path.join(shimdir, "state")
+    if os.path.exists(state):
+        os.remove(state)
+    env = dict(os.environ, PATH=shimdir + os.pathsep + os.environ.get("PATH", ""), SHIM_PLAN=",".join(plan), SHIM_STATE=state,
+               TMPDIR=tmpdir, PYTHONPATH=core.REPO)
+    for k_ in ("GIT_DIR", "GIT_WORK_TREE"):
+        env.pop(k_, None)
+    code = "import sys; sys.argv = ['bandit-baseline'] + %r; from bandit.cli import baseline as b; b.main()" % (list(argv),)
+    p = subprocess.run([core.PY, "-c", code], cwd=repo, env=env, capture_output=True, text=True, timeout=300)
+    return {"exit": p.returncode, "stdout": p.stdout, "stderr": p.stderr}
 
 
 def run(R, replay=None):
@@ -253,6 +279,33 @@ def run(R, replay=None):
     for i, tail in mm[:10]:
         R.broken.append({"what": "correspondence: repository state / exit status after a scenario differ from the BaselineTool model",
                          "input": descr[i], "implementation": cases[i][1], "model_output_excerpt": tail[:500]})
+    # ---- the same as a process of its own, for every way the bandit subprocess can end
+    for runs in [("term", "0"), ("1", "term"), ("kill", "1"), ("0", "kill"), ("2", "1"), ("hup", "0"), ("1", "hup"), ("1", "1")]:
+        k += 1
+        repo = os.path.join(base, "s%d" % k)
+        cur, parent = make_repo(repo)
+        tmpd = os.path.join(base, "st%d" % k)
+        os.makedirs(tmpd)
+        before = snapshot(repo)
+        r = run_baseline_subprocess(repo, ["a.py", "b.py"], runs, tmpd, shimdir)
+        after = snapshot(repo)
+        left = os.listdir(tmpd)
+        R.case(("process", runs), sample={"bandit_runs": runs, "exit": r["exit"], "head_restored": after["head"] == cur, "tmp_left": len(left)})
+        R.count("process")
+        problems = []
+        if after["head"] != cur or after["branch_sha"] != cur or after["branch"] != before["branch"]:
+            problems.append("HEAD/branch not restored")
+        if after["status"] != before["status"] or after["content"] != before["content"]:
+            problems.append("working tree changed: %r" % after["status"])
+        if left:
+            problems.append("temporary directory left behind: %s" % left)
+        if r["exit"] < 0:
+            problems.append("the tool itself died of signal %d" % -r["exit"])
+        if problems:
+            R.violations.append({"what": "bandit-baseline as a process, bandit subprocess outcomes %s: %s" % (runs, "; ".join(problems)),
+                                 "input": {"bandit_runs": runs}, "observed": {"exit": r["exit"], "stderr": r["stderr"][-300:]}, "signature": None})
+        shutil.rmtree(repo, ignore_errors=True)
+        shutil.rmtree(tmpd, ignore_errors=True)
     # ---- refusals: nothing is reset, exit status 2
     pre = [("dirty", lambda d: open(os.path.join(d, "a.py"), "a").write("# x\n"), ["a.py"]),
            ("report-exists", lambda d: open(os.path.join(d, "bandit_baseline_result.json"), "w").write("{}"), ["a.py", "-f", "json"]),
